@@ -1,9 +1,10 @@
 //go:build verif
 
 // Harness for C15: runs identical op sequences on db/memory, db/pebble (v1), db/pebblev2 and on
-// the Lean models (`Mem` = transcription of db/memory, `Spec` = the contract) and compares every
-// output. Model-vs-memory differences are correspondence mismatches; a backend that differs from
-// the contract on a sequence is a property violation with the (shrunk) sequence as replay.
+// the Lean models (`Mem` = transcription of db/memory, `Peb` = transcription of the Pebble wrappers,
+// `Spec` = the contract). The property oracle compares the real backends with each other and does
+// not need the Lean driver; the driver adds the correspondence of each backend with its
+// transcription and the attribution of known findings (run.go).
 package main
 
 import (
@@ -11,94 +12,12 @@ import (
 	"encoding/json"
 	"fmt"
 	"os"
+	"os/exec"
 	"strings"
-	"sync"
 
 	"github.com/NethermindEth/juno/db/dbutils"
 	"verif/harness/lib"
 )
-
-// ---- known ways in which a backend leaves the contract (each has its own stable Sig) ----------
-const (
-	sigNilUB     = "memory-iterator-nil-upper-bound-yields-nothing"
-	sigPrefix    = "memory-iterator-without-upper-bound-filters-by-prefix"
-	sigPrevFirst = "memory-iterator-prev-before-first-revalidates"
-	sigNextEnd   = "memory-iterator-next-past-end-keeps-counting"
-	sigBatchDR   = "memory-batch-deleterange-materialised-at-call-time"
-	sigSnapHas   = "pebble-snapshot-has-missing-key-returns-error"
-	sigBufNil    = "bufferbatch-put-nil-value-acts-as-delete"
-	sigSnapLeak  = "pebble-snapshot-get-callback-error-leaks-value"
-)
-
-type Cfg struct{ NilUb, LowerBound, PrevFix, NextClamp bool }
-
-func (c Cfg) Line() string {
-	return "cfg " + b01(c.NilUb) + " " + b01(c.LowerBound) + " " + b01(c.PrevFix) + " " + b01(c.NextClamp)
-}
-
-// probeCfg asks the real db/memory which variant of the four known spots it implements, so that
-// the Lean `Mem` model follows the code (CONVENTIONS §5: "the model follows the code").
-func probeCfg() Cfg {
-	var c Cfg
-	w, _ := NewWorld(memoryBackend())
-	defer w.Dispose()
-	w.Exec(Op{K: "put", Key: []byte{1}, Val: []byte{1}})
-	w.Exec(Op{K: "put", Key: []byte{2}, Val: []byte{2}})
-	c.NilUb = w.Exec(Op{K: "scan", Src: "db", Key: nil, U: true}) == "[01=01,02=02]"
-	c.LowerBound = w.Exec(Op{K: "scan", Src: "db", Key: []byte{1}, U: false}) == "[01=01,02=02]"
-	w.Exec(Op{K: "iter", Src: "db"})
-	w.Exec(Op{K: "first", H: 0})
-	w.Exec(Op{K: "prev", H: 0})
-	c.PrevFix = w.Exec(Op{K: "prev", H: 0}) == "F invalid"
-	w.Exec(Op{K: "seek", H: 0, Key: []byte{3}})
-	w.Exec(Op{K: "next", H: 0})
-	c.NextClamp = w.Exec(Op{K: "prev", H: 0}) == "T 02=02"
-	return c
-}
-
-// probeBufNil: does db.BufferBatch.Put(key, nil) read back as deleted in this tree?
-func probeBufNil() bool {
-	w, _ := NewWorld(memoryBackend())
-	defer w.Dispose()
-	w.Exec(Op{K: "newbatch", Idx: true, Wrap: "buffer"})
-	w.Exec(Op{K: "bput", H: 0, Key: []byte{1}, Val: nil, NilB: true})
-	return w.Exec(Op{K: "get", Src: "b0", Key: []byte{1}}) == "notfound"
-}
-
-// ---- running one sequence everywhere ------------------------------------------------------------
-
-type Divergence struct {
-	Sig      string `json:"sig"`
-	Backend  string `json:"backend"`
-	At       int    `json:"at"`
-	Op       string `json:"op"`
-	Contract string `json:"contract_says"`
-	Got      string `json:"backend_says"`
-}
-
-type SeqResult struct {
-	Divs       []Divergence
-	Mismatches []lib.Mismatch
-	Compared   int
-	InContract bool
-	Outs       map[string][]string
-}
-
-type Runner struct {
-	drv       *lib.Driver
-	mu        sync.Mutex // the driver is shared
-	cfg       Cfg
-	bufDefect bool // db.BufferBatch.Put(key, nil) reads back as a deletion in this tree
-	disk      bool
-}
-
-func parseDrv(s string) (mem, spec string, ok bool) {
-	p := strings.Split(s, " | ")
-	if len(p) != 3 {
-		return s, s, false
-	}
-	return p[0], p[1], p[2] == "1"
-}
 
 func allFF(p []byte) bool {
 	for _, b := range p {
@@ -109,396 +28,14 @@ func allFF(p []byte) bool {
 	return true
 }
 
-// iterClass: are these NewIterator arguments, for the probed variant of db/memory, themselves a known
-// way of leaving the contract? (cfg-aware: once a repair is in the tree the arguments are inside
-// the contract and a difference on them is NOT filed under the old finding.)
-func iterClass(cfg Cfg, p []byte, u bool) string {
-	if u && allFF(p) && !cfg.NilUb {
-		return sigNilUB
-	}
-	if !u && len(p) > 0 && !cfg.LowerBound {
-		return sigPrefix
-	}
-	return ""
-}
-
-// causes tracks, per sequence, WHY a later output may differ from the contract, so that a
-// divergence is attributed to its cause and not to the op that happens to expose it:
-//   - F5 (batch DeleteRange materialised at call time): a live batch that holds a DeleteRange and
-//     under which the store changed is tainted; writing it taints the store; snapshots and
-//     iterators inherit the taint of what they were created from;
-//   - db.BufferBatch given Put(key, nil) (only when the probe found that defect in the tree): same
-//     propagation, applies to every backend;
-//   - iterator bounds / position classes: per iterator handle, only for the probed variant.
-type causes struct {
-	cfg        Cfg
-	bufDefect  bool
-	closed     bool
-	live       map[int]bool
-	hasRange   map[int]bool
-	batchF5    map[int]bool
-	isBuf      map[int]bool
-	batchBuf   map[int]bool
-	nBatches   int
-	dbF5       bool
-	dbBuf      bool
-	snapF5     map[int]bool
-	snapBuf    map[int]bool
-	nSnaps     int
-	iterF5     map[int]bool
-	iterBuf    map[int]bool
-	iterBounds map[int]string
-	iterPos    map[int]string
-	nIters     int
-	// a Pebble snapshot.Get whose callback failed on a present key: the wrapper returns without
-	// closing the value, and the store's Close then reports the leak
-	snapGetFailed bool
-}
-
-func newCauses(cfg Cfg, bufDefect bool) *causes {
-	return &causes{cfg: cfg, bufDefect: bufDefect, live: map[int]bool{}, hasRange: map[int]bool{}, batchF5: map[int]bool{},
-		isBuf: map[int]bool{}, batchBuf: map[int]bool{}, snapF5: map[int]bool{}, snapBuf: map[int]bool{},
-		iterF5: map[int]bool{}, iterBuf: map[int]bool{}, iterBounds: map[int]string{}, iterPos: map[int]string{}}
-}
-
-func srcHandle(src string) int {
-	var h int
-	fmt.Sscanf(src[1:], "%d", &h)
-	return h
-}
-
-// srcTaint: is what a reader of src sees possibly spoilt by F5 / by the BufferBatch defect?
-func (c *causes) srcTaint(src string) (f5, buf bool) {
-	switch {
-	case src == "db":
-		return c.dbF5, c.dbBuf
-	case strings.HasPrefix(src, "b"):
-		h := srcHandle(src)
-		return c.batchF5[h] || c.dbF5, c.batchBuf[h] || c.dbBuf
-	case strings.HasPrefix(src, "s"):
-		h := srcHandle(src)
-		return c.snapF5[h], c.snapBuf[h]
-	}
-	return false, false
-}
-
-// before returns, for the op about to run: the cause that explains a difference on db/memory, the
-// cause that explains a difference on every backend, and the iterator class of the op (bounds or
-// position; used to decide whether an out-of-contract iterator op is compared at all).
-func (c *causes) before(o Op, okc bool) (memCause, allCause, iterCls string) {
-	f5, buf := false, false
-	switch o.K {
-	case "get", "has", "scan", "iter":
-		f5, buf = c.srcTaint(o.Src)
-		if o.K == "scan" || o.K == "iter" {
-			iterCls = iterClass(c.cfg, o.Key, o.U)
-		}
-	case "update":
-		f5, buf = c.dbF5, c.dbBuf
-		for _, in := range o.Inner {
-			if in.K == "scan" && iterCls == "" {
-				iterCls = iterClass(c.cfg, in.Key, in.U)
-			}
-		}
-	case "first", "next", "prev", "seek", "value":
-		f5, buf = c.iterF5[o.H], c.iterBuf[o.H]
-		if o.K == "first" || o.K == "seek" {
-			delete(c.iterPos, o.H)
-		}
-		if o.K == "prev" && !okc && !c.cfg.PrevFix && !c.closed && c.iterPos[o.H] == "" {
-			c.iterPos[o.H] = sigPrevFirst
-		}
-		if o.K == "next" && !okc && !c.cfg.NextClamp && !c.closed && c.iterPos[o.H] == "" {
-			c.iterPos[o.H] = sigNextEnd
-		}
-		if t := c.iterBounds[o.H]; t != "" {
-			iterCls = t
-		} else {
-			iterCls = c.iterPos[o.H]
-		}
-	}
-	if buf {
-		allCause = sigBufNil
-	}
-	switch {
-	case f5:
-		memCause = sigBatchDR
-	case buf:
-		memCause = sigBufNil
-	default:
-		memCause = iterCls
-	}
-	return memCause, allCause, iterCls
-}
-
-// after updates the bookkeeping once the op ran.
-func (c *causes) after(o Op) {
-	storeChanged := func(except int) {
-		if c.closed {
-			return
-		}
-		for b, l := range c.live {
-			if l && b != except && c.hasRange[b] {
-				c.batchF5[b] = true
-			}
-		}
-	}
-	switch o.K {
-	case "newbatch":
-		c.live[c.nBatches] = true
-		c.isBuf[c.nBatches] = o.Idx && o.Wrap == "buffer"
-		c.nBatches++
-	case "bdelrange":
-		if c.live[o.H] {
-			c.hasRange[o.H] = true
-		}
-	case "bput":
-		if c.bufDefect && c.live[o.H] && c.isBuf[o.H] && len(o.Val) == 0 && o.NilB {
-			c.batchBuf[o.H] = true
-		}
-	case "put", "del", "delrange":
-		storeChanged(-1)
-	case "update":
-		if !o.Fail {
-			storeChanged(-1)
-		}
-	case "bwrite":
-		if c.live[o.H] && !c.closed {
-			storeChanged(o.H)
-			c.dbF5 = c.dbF5 || c.batchF5[o.H]
-			c.dbBuf = c.dbBuf || c.batchBuf[o.H]
-			c.live[o.H] = false
-		}
-	case "bclose":
-		c.live[o.H] = false
-	case "snap":
-		if !c.closed {
-			c.snapF5[c.nSnaps], c.snapBuf[c.nSnaps] = c.dbF5, c.dbBuf
-			c.nSnaps++
-		}
-	case "iter":
-		c.iterF5[c.nIters], c.iterBuf[c.nIters] = c.srcTaint(o.Src)
-		if cls := iterClass(c.cfg, o.Key, o.U); cls != "" {
-			c.iterBounds[c.nIters] = cls
-		}
-		c.nIters++
-	case "close":
-		c.closed = true
-	}
-}
-
-// Run executes ops on the three real backends and on the Lean models and compares.
-func (rn *Runner) Run(ops []Op) (*SeqResult, error) {
-	sr := &SeqResult{InContract: true, Outs: map[string][]string{}}
-	// models
-	rn.mu.Lock()
-	ans, err := rn.drv.AskAll(append([]string{"reset"}, lines(ops)...))
-	rn.mu.Unlock()
-	if err != nil {
-		return nil, err
-	}
-	ans = ans[1:]
-	backends := []Backend{memoryBackend(), pebble1Backend(false), pebble2Backend(rn.disk)}
-	type bstate struct {
-		w        *World
-		stopped  bool
-		deadIter map[int]bool
-	}
-	var bst []*bstate
-	for _, b := range backends {
-		w, err := NewWorld(b)
-		if err != nil {
-			return nil, fmt.Errorf("open %s: %w", b.Name, err)
-		}
-		defer w.Dispose()
-		bst = append(bst, &bstate{w: w, deadIter: map[int]bool{}})
-	}
-	cs := newCauses(rn.cfg, rn.bufDefect)
-	iterOrigin := map[int]string{} // live iterator handle -> source it was created from
-	orphan := map[int]bool{}       // iterators whose batch / snapshot was closed under them
-	nIters := 0
-	for i, o := range ops {
-		memModel, spec, okc := parseDrv(ans[i])
-		if !okc {
-			sr.InContract = false
-		}
-		memCause, allCause, iterCls := cs.before(o, okc)
-		skipCross := false
-		switch o.K {
-		case "iter":
-			iterOrigin[nIters] = o.Src
-			nIters++
-		case "iclose":
-			delete(iterOrigin, o.H)
-		case "bwrite", "bclose", "sclose":
-			// Pebble: an iterator must be closed before the batch / snapshot it reads from
-			from := fmt.Sprintf("b%d", o.H)
-			if o.K == "sclose" {
-				from = fmt.Sprintf("s%d", o.H)
-			}
-			for h, src := range iterOrigin {
-				if src == from {
-					orphan[h] = true
-					skipCross = true
-				}
-			}
-		case "first", "next", "prev", "seek", "value":
-			if orphan[o.H] {
-				skipCross = true
-			}
-		}
-		if !okc {
-			switch o.K {
-			case "bsize", "value", "close", "get", "has", "sclose", "iclose", "bdelrange":
-				// outside the documented contract (Size after DeleteRange, Value() of an invalid
-				// iterator, handles used after the store was closed): not compared across backends
-				skipCross = true
-			case "iter", "scan", "first", "seek", "next", "prev":
-				if iterCls == "" {
-					skipCross = true
-				}
-			}
-		}
-		// db.BufferBatch is not part of the Mem model: reads it may have spoilt are left out of the
-		// model correspondence
-		bufAffected := cs.dbBuf || allCause != ""
-		for bi, b := range bst {
-			out := b.w.Exec(o)
-			sr.Outs[b.w.name] = append(sr.Outs[b.w.name], out)
-			if bi == 0 && !bufAffected {
-				// correspondence: Lean Mem model vs real db/memory (always, also outside the contract)
-				sr.Compared++
-				if out != memModel {
-					sr.Mismatches = append(sr.Mismatches, lib.Mismatch{Sig: "mem-model:" + o.K,
-						Input: map[string]any{"ops": lines(ops[:i+1]), "cfg": rn.cfg}, Model: memModel, Impl: out})
-				}
-			}
-			if b.stopped || skipCross {
-				continue
-			}
-			switch o.K {
-			case "first", "next", "prev", "seek", "value", "iclose":
-				if b.deadIter[o.H] {
-					continue
-				}
-			}
-			sr.Compared++
-			if out == spec {
-				continue
-			}
-			sig := ""
-			switch {
-			case bi != 0 && o.K == "close" && cs.snapGetFailed && spec == "ok" && out == "err:other":
-				sig = sigSnapLeak
-			case bi == 0:
-				sig = memCause
-			case o.K == "has" && strings.HasPrefix(o.Src, "s") && spec == "false" && out == "err:pebble-notfound":
-				sig = sigSnapHas
-			default:
-				sig = allCause
-			}
-			if sig == "" {
-				sig = b.w.name + "-differs-from-contract:" + o.K
-			}
-			sr.Divs = append(sr.Divs, Divergence{Sig: sig, Backend: b.w.name, At: i, Op: o.Line(), Contract: spec, Got: out})
-			switch o.K {
-			case "get", "has", "scan", "bsize", "value":
-				// read-only: the backend's state is still comparable
-			case "first", "next", "prev", "seek":
-				b.deadIter[o.H] = true
-			default:
-				b.stopped = true
-			}
-		}
-		if o.K == "get" && o.Fail && strings.HasPrefix(o.Src, "s") && spec == "err:cb" {
-			cs.snapGetFailed = true
-		}
-		cs.after(o)
-	}
-	return sr, nil
-}
-
-func hasSig(sr *SeqResult, sig string) *Divergence {
-	for i := range sr.Divs {
-		if sr.Divs[i].Sig == sig {
-			return &sr.Divs[i]
-		}
-	}
-	return nil
-}
-
-func createsHandle(o Op) bool { return o.K == "iter" || o.K == "newbatch" || o.K == "snap" }
-
-// shrink removes ops (never handle-creating ones: handles are numbered by creation order) while
-// the same Sig still shows up.
-func (rn *Runner) shrink(ops []Op, sig string) []Op {
-	cur := ops
-	if sr, err := rn.Run(cur); err == nil {
-		if d := hasSig(sr, sig); d != nil {
-			cur = cur[:d.At+1]
-		}
-	}
-	for pass := 0; pass < 2; pass++ {
-		for i := len(cur) - 2; i >= 0; i-- {
-			if createsHandle(cur[i]) {
-				continue
-			}
-			cand := append(append([]Op{}, cur[:i]...), cur[i+1:]...)
-			sr, err := rn.Run(cand)
-			if err != nil {
-				return cur
-			}
-			if d := hasSig(sr, sig); d != nil {
-				cur = cand[:d.At+1]
-				if i > len(cur)-1 {
-					i = len(cur) - 1
-				}
-			}
-		}
-	}
-	return cur
-}
-
-type Replay struct {
-	Cfg     Cfg                 `json:"memory_variant"`
-	Lines   []string            `json:"lines"`
-	Ops     []Op                `json:"ops"`
-	Div     *Divergence         `json:"divergence,omitempty"`
-	Outputs map[string][]string `json:"outputs,omitempty"`
-}
-
-var reported sync.Map
-
-// account folds one sequence result into the harness result; new Sigs are shrunk first.
-func (rn *Runner) account(res *lib.Result, ops []Op, sr *SeqResult) {
-	res.Compared(sr.Compared)
-	for _, m := range sr.Mismatches {
-		res.Mismatch(m)
-	}
-	for _, d := range sr.Divs {
-		res.Hit("divergence:" + d.Sig)
-		if _, dup := reported.LoadOrStore(d.Sig, true); dup {
-			continue
-		}
-		small := rn.shrink(ops, d.Sig)
-		rp := Replay{Cfg: rn.cfg, Lines: lines(small), Ops: small}
-		what := fmt.Sprintf("%s: op %q: contract says %q, %s says %q", d.Sig, d.Op, d.Contract, d.Backend, d.Got)
-		if sr2, err := rn.Run(small); err == nil {
-			if d2 := hasSig(sr2, d.Sig); d2 != nil {
-				rp.Div, rp.Outputs = d2, sr2.Outs
-				what = fmt.Sprintf("after %d ops, %q: contract (Lean Spec) says %q, %s says %q", d2.At, d2.Op, d2.Contract, d2.Backend, d2.Got)
-			}
-		}
-		res.Violate(lib.Violation{Sig: d.Sig, What: what, Replay: rp})
-	}
-}
-
 func hitOps(res *lib.Result, ops []Op) {
 	for _, o := range ops {
 		k := o.K
 		switch o.K {
-		case "get", "has", "iter", "scan":
+		case "get", "has", "iter", "scan", "rscan", "getw":
 			k += ":" + o.Src[:1]
+		case "xupdate":
+			k += ":" + o.Src
 		}
 		res.Hit("op:" + k)
 		if o.K == "iter" || o.K == "scan" {
@@ -601,42 +138,51 @@ func corpus() [][]Op {
 	}
 }
 
-// enumerate iterator positioning: every sequence of `depth` moves over a fixed store, per bound.
+// enumerate iterator positioning: every sequence of `depth` moves, per bound, over the store, a
+// snapshot of it and an indexed batch with a pending put / delete / DeleteRange over it (Pebble merges
+// batch and store in that iterator).
 func positionSequences(depth int) [][]Op {
 	base := []Op{{K: "put", Key: k(0x01), Val: k(1)}, {K: "put", Key: k(0x01, 0xff), Val: nil}, {K: "put", Key: k(0x02), Val: k(2)},
-		{K: "put", Key: k(0xff), Val: k(3)}}
+		{K: "put", Key: k(0x02, 0x05), Val: k(9)}, {K: "put", Key: k(0xff), Val: k(3)},
+		{K: "snap"},                // s0: the five keys above
+		{K: "newbatch", Idx: true}, // b0 over a store that changes below
+		{K: "put", Key: k(0x00), Val: k(7)}, {K: "del", Key: k(0x02, 0x05)},
+		{K: "bput", H: 0, Key: k(0x01, 0x00), Val: k(4)}, {K: "bdel", H: 0, Key: k(0x01, 0xff)},
+		{K: "bdelrange", H: 0, Key: k(0x02), End: k(0x03)}, {K: "bput", H: 0, Key: k(0x02, 0x01), Val: nil}}
 	moves := []Op{{K: "first"}, {K: "next"}, {K: "prev"}, {K: "seek", Key: nil}, {K: "seek", Key: k(0x01, 0xff)}, {K: "seek", Key: k(0x02, 0x00)},
 		{K: "seek", Key: k(0xff, 0xff)}}
-	var all [][]Op
-	for _, bounds := range []Op{{K: "iter", Src: "db"}, {K: "iter", Src: "db", Key: k(0x01), U: true}, {K: "iter", Src: "db", Key: k(0x03), U: true}} {
-		// one sequence per first move; the remaining moves are enumerated inside it with fresh iterators
-		var rec func(prefix []int)
-		var seqs [][]int
-		rec = func(prefix []int) {
-			if len(prefix) == depth {
-				seqs = append(seqs, append([]int{}, prefix...))
-				return
-			}
-			for m := range moves {
-				rec(append(prefix, m))
-			}
+	var seqs [][]int
+	var rec func(prefix []int)
+	rec = func(prefix []int) {
+		if len(prefix) == depth {
+			seqs = append(seqs, append([]int{}, prefix...))
+			return
 		}
-		rec(nil)
-		const perWorld = 200
-		for s := 0; s < len(seqs); s += perWorld {
-			ops := append([]Op{}, base...)
-			h := 0
-			for _, sq := range seqs[s:min(s+perWorld, len(seqs))] {
-				ops = append(ops, bounds)
-				for _, m := range sq {
-					mv := moves[m]
-					mv.H = h
-					ops = append(ops, mv)
+		for m := range moves {
+			rec(append(prefix, m))
+		}
+	}
+	rec(nil)
+	var all [][]Op
+	for _, src := range []string{"db", "s0", "b0"} {
+		for _, bounds := range []Op{{K: "iter", Src: src}, {K: "iter", Src: src, Key: k(0x01), U: true}, {K: "iter", Src: src, Key: k(0x03), U: true},
+			{K: "iter", Src: src, Key: k(0x01, 0xff), U: false}} {
+			const perWorld = 200
+			for s := 0; s < len(seqs); s += perWorld {
+				ops := append([]Op{}, base...)
+				h := 0
+				for _, sq := range seqs[s:min(s+perWorld, len(seqs))] {
+					ops = append(ops, bounds)
+					for _, m := range sq {
+						mv := moves[m]
+						mv.H = h
+						ops = append(ops, mv)
+					}
+					ops = append(ops, Op{K: "key", H: h}, Op{K: "iclose", H: h})
+					h++
 				}
-				ops = append(ops, Op{K: "iclose", H: h})
-				h++
+				all = append(all, withEnding(ops))
 			}
-			all = append(all, ops)
 		}
 	}
 	return all
@@ -659,12 +205,245 @@ func boundsSequences() [][]Op {
 	return [][]Op{ops}
 }
 
-func fixOps(ops []Op) []Op {
-	// corpus entries leave handle numbers 0
+// withEnding appends the final observation: scan the store, every live snapshot and indexed batch,
+// then close every iterator, batch and snapshot, reopen, scan again and close the store — all inside the
+// contract, so unread writes, leaked handles and lost durable data are always looked at.
+func withEnding(ops []Op) []Op {
+	tr := newTracker()
+	for _, o := range ops {
+		d := tr.documented(o)
+		ref := ""
+		if o.K == "iter" {
+			ref = "h:" // bookkeeping only: assume creation succeeded
+			if !tr.srcOK(o.Src) {
+				ref = "err"
+			}
+		}
+		tr.after(o, d, ref)
+	}
+	if !tr.open || tr.offRail {
+		return ops
+	}
+	out := append([]Op{}, ops...)
+	out = append(out, Op{K: "scan", Src: "db"})
+	for i, it := range tr.iters {
+		if it.live {
+			out = append(out, Op{K: "iclose", H: i})
+		}
+	}
+	for i, s := range tr.snaps {
+		if s == 1 {
+			out = append(out, Op{K: "scan", Src: fmt.Sprintf("s%d", i)}, Op{K: "sclose", H: i})
+		}
+	}
+	for i, b := range tr.batches {
+		if b.live {
+			if b.idx && !b.buf { // (db.BufferBatch has no NewIterator)
+				out = append(out, Op{K: "scan", Src: fmt.Sprintf("b%d", i)})
+			}
+			out = append(out, Op{K: "bclose", H: i})
+		}
+	}
+	return append(out, Op{K: "reopen", U: len(ops)%2 == 0}, Op{K: "scan", Src: "db"}, Op{K: "rscan", Src: "db", Key2: k(0xff, 0xff, 0xff, 0xff)}, Op{K: "close"})
+}
+
+// f5Sequence: a live batch deletes a non-empty range, then the store gains a key inside that
+// range (direct put, another batch, or a helper), then the batch is read and written.
+func f5Sequence(r *lib.RNG) []Op {
+	keys := [][]byte{k(0x01), k(0x01, 0x00), k(0x01, 0xff), k(0x02), k(0x02, 0x05), k(0x03)}
+	var ops []Op
+	for _, key := range keys {
+		if r.Chance(2, 3) {
+			ops = append(ops, Op{K: "put", Key: key, Val: lib.Pick(r, valAlphabet)})
+		}
+	}
+	ops = append(ops, Op{K: "put", Key: k(0x02, 0x09), Val: k(1)}, Op{K: "newbatch", Idx: r.Chance(3, 4)})
+	if r.Bool() {
+		ops = append(ops, Op{K: "bput", H: 0, Key: k(0x01, 0x05), Val: k(5)})
+	}
+	ops = append(ops, Op{K: "bdelrange", H: 0, Key: k(0x01), End: k(0x03)})
+	inside := lib.Pick(r, [][]byte{k(0x01, 0x07), k(0x02, 0x00), k(0x02, 0xff, 0xff), k(0x01)})
+	switch r.Intn(3) {
+	case 0:
+		ops = append(ops, Op{K: "put", Key: inside, Val: k(0xaa)})
+	case 1:
+		ops = append(ops, Op{K: "newbatch"}, Op{K: "bput", H: 1, Key: inside, Val: k(0xaa)}, Op{K: "bwrite", H: 1})
+	default:
+		ops = append(ops, Op{K: "update", Idx: r.Bool(), Inner: []Op{{K: "put", Key: inside, Val: k(0xaa)}}})
+	}
 	return ops
 }
 
-// ---- main -------------------------------------------------------------------------------------
+func f5Tail(ops []Op, r *lib.RNG) []Op {
+	idx := false
+	for _, o := range ops {
+		if o.K == "newbatch" {
+			idx = o.Idx
+			break
+		}
+	}
+	if idx {
+		ops = append(ops, Op{K: "scan", Src: "b0"}, Op{K: "get", Src: "b0", Key: k(0x02, 0x00)})
+	}
+	ops = append(ops, Op{K: "snap"}, Op{K: "bwrite", H: 0}, Op{K: "scan", Src: "db"}, Op{K: "has", Src: "db", Key: k(0x01, 0x07)},
+		Op{K: "iter", Src: "db", Key: k(0x01), U: true}, Op{K: "first", H: 0}, Op{K: "next", H: 0})
+	return withEnding(ops)
+}
+
+// largeSequence: a few hundred keys of 8-40 bytes, some 4 KiB values, a big batch, forced flush
+// and compaction, reopen — the sstable / compaction paths of Pebble under the same oracle.
+func largeSequence(r *lib.RNG, n int) []Op {
+	mkKey := func() []byte {
+		l := r.Range(8, 40)
+		b := make([]byte, l)
+		b[0] = lib.Pick(r, []byte{0x0a, 0x0b, 0x0b, 0xff})
+		b[1] = lib.Pick(r, []byte{0x00, 0x7f, 0x80, 0xff})
+		for i := 2; i < l; i++ {
+			b[i] = lib.Pick(r, []byte{0x00, 0x01, 0x7f, 0x80, 0xfe, 0xff, byte(r.Intn(256))})
+		}
+		return b
+	}
+	mkVal := func() []byte {
+		if r.Chance(1, 20) {
+			return r.Bytes(4096)
+		}
+		return r.Bytes(r.Intn(17))
+	}
+	var keys [][]byte
+	var ops []Op
+	for i := 0; i < n; i++ {
+		key := mkKey()
+		keys = append(keys, key)
+		ops = append(ops, Op{K: "put", Key: key, Val: mkVal()})
+		if i%97 == 96 {
+			ops = append(ops, Op{K: "flush"})
+		}
+	}
+	ops = append(ops, Op{K: "newbatch", Idx: true})
+	for i := 0; i < n/2; i++ {
+		switch r.Intn(4) {
+		case 0:
+			ops = append(ops, Op{K: "bdel", H: 0, Key: lib.Pick(r, keys)})
+		case 1:
+			ops = append(ops, Op{K: "bput", H: 0, Key: lib.Pick(r, keys), Val: mkVal()})
+		default:
+			ops = append(ops, Op{K: "bput", H: 0, Key: mkKey(), Val: mkVal()})
+		}
+	}
+	a, b := lib.Pick(r, keys), lib.Pick(r, keys)
+	if bytes.Compare(a, b) > 0 {
+		a, b = b, a
+	}
+	ops = append(ops, Op{K: "bdelrange", H: 0, Key: a, End: b}, Op{K: "get", Src: "b0", Key: keys[0]}, Op{K: "snap"},
+		Op{K: "bwrite", H: 0}, Op{K: "flush"}, Op{K: "delrange", Key: k(0x0b, 0x7f), End: k(0x0b, 0x80)})
+	for i := 0; i < 30; i++ {
+		ops = append(ops, Op{K: "get", Src: lib.Pick(r, []string{"db", "s0"}), Key: lib.Pick(r, keys)})
+	}
+	ops = append(ops, Op{K: "scan", Src: "db", Key: k(0x0b), U: true}, Op{K: "scan", Src: "s0", Key: k(0x0a, 0xff), U: true},
+		Op{K: "rscan", Src: "db", Key: k(0xff), U: true, Key2: k(0xff, 0xff, 0xff)},
+		Op{K: "iter", Src: "db", Key: k(0x0b, 0x80), U: false}, Op{K: "seek", H: 0, Key: lib.Pick(r, keys)}, Op{K: "prev", H: 0}, Op{K: "next", H: 0},
+		Op{K: "next", H: 0})
+	return withEnding(ops)
+}
+
+// handleSequences: handles that were never allocated, batches read although not indexed, handles
+// used after their Close — outside the contract; the models say what each backend does there.
+func handleSequences() [][]Op {
+	pre := []Op{{K: "put", Key: k(0x01), Val: k(1)}, {K: "put", Key: k(0x02), Val: nil}}
+	with := func(more ...Op) []Op { return append(append([]Op{}, pre...), more...) }
+	return [][]Op{
+		with(Op{K: "newbatch"}, Op{K: "bput", Key: k(0x05), Val: k(5)}, Op{K: "get", Src: "b0", Key: k(0x05)}, Op{K: "get", Src: "b0", Key: k(0x01)},
+			Op{K: "has", Src: "b0", Key: k(0x01)}, Op{K: "has", Src: "b0", Key: k(0x09)}, Op{K: "get", Src: "b0", Key: k(0x09), Fail: true},
+			Op{K: "bwrite"}, Op{K: "scan", Src: "db"}),
+		with(Op{K: "bput", H: 3, Key: k(1), Val: k(1)}, Op{K: "bwrite", H: 3}, Op{K: "bsize", H: 2}, Op{K: "get", Src: "b4", Key: k(1)},
+			Op{K: "get", Src: "s2", Key: k(1)}, Op{K: "sclose", H: 2}, Op{K: "first", H: 1}, Op{K: "value", H: 1}, Op{K: "iclose", H: 1},
+			Op{K: "scan", Src: "db"}),
+		with(Op{K: "snap"}, Op{K: "sclose"}, Op{K: "get", Src: "s0", Key: k(0x01)}, Op{K: "has", Src: "s0", Key: k(0x01)},
+			Op{K: "scan", Src: "s0"}, Op{K: "iter", Src: "s0"}, Op{K: "sclose"}, Op{K: "scan", Src: "db"}),
+		with(Op{K: "iter", Src: "db"}, Op{K: "key"}, Op{K: "value"}, Op{K: "value", U: true}, Op{K: "seek", Key: k(0x09)}, Op{K: "key"},
+			Op{K: "value", U: true}, Op{K: "prev"}, Op{K: "key"}, Op{K: "value", U: true}, Op{K: "iclose"}, Op{K: "key"}, Op{K: "value", U: true}),
+		with(Op{K: "newbatch", Idx: true}, Op{K: "iter", Src: "db"}, Op{K: "snap"}, Op{K: "close"}, Op{K: "get", Src: "b0", Key: k(1)},
+			Op{K: "bput", Key: k(3), Val: k(3)}, Op{K: "bdelrange", Key: nil, End: k(0xff)}, Op{K: "bsize"}, Op{K: "bwrite"}, Op{K: "reopen"},
+			Op{K: "update", Idx: true, Inner: []Op{{K: "put", Key: k(1), Val: k(1)}}}),
+	}
+}
+
+// reentrantSequences: callbacks that re-enter the store. The modelled one (`getw`: a Get callback
+// that writes) comes last in its sequence because db/memory never returns from it today; the
+// `xupdate` shapes are not modelled and are compared backend against backend.
+func reentrantSequences() [][]Op {
+	pre := []Op{{K: "put", Key: k(0x01), Val: k(1)}, {K: "put", Key: k(0x02), Val: k(2)}}
+	with := func(more ...Op) []Op { return append(append([]Op{}, pre...), more...) }
+	seqs := [][]Op{
+		with(Op{K: "getw", Src: "db", Key: k(0x09), Key2: k(0x03), Val: k(3)}, Op{K: "getw", Src: "db", Key: k(0x01), Key2: k(0x03), Val: k(3)},
+			Op{K: "scan", Src: "db"}),
+		with(Op{K: "newbatch", Idx: true}, Op{K: "bput", Key: k(0x05), Val: k(5)},
+			Op{K: "getw", Src: "b0", Key: k(0x05), Key2: k(0x03), Val: k(3)}, Op{K: "scan", Src: "db"}),
+	}
+	for _, shape := range []string{"direct-put-then-fail", "callback-writes-batch", "nested-update", "get-callback-reads", "update-reads-store"} {
+		seqs = append(seqs, with(Op{K: "xupdate", Src: shape, Key: k(0x01), Key2: k(0x07)}),
+			with(Op{K: "xupdate", Src: shape, Key: k(0x06), Key2: k(0x02)}))
+	}
+	return seqs
+}
+
+const sigEmptyKeyCrash = "pebblev2-table-block-with-only-the-empty-key-crashes-process"
+
+func usesEmptyKey(ops []Op) bool {
+	for _, o := range ops {
+		switch o.K {
+		case "put", "bput", "del", "bdel":
+			if len(o.Key) == 0 {
+				return true
+			}
+		case "getw":
+			if len(o.Key2) == 0 {
+				return true
+			}
+		case "update":
+			if usesEmptyKey(o.Inner) {
+				return true
+			}
+		}
+	}
+	return false
+}
+
+// probeEmptyKeyFlushChild: put the empty key, force a flush, exit 0.
+func probeEmptyKeyFlushChild() {
+	st, err := pebble2Backend(false).Open()
+	if err != nil {
+		fmt.Println("open:", err)
+		os.Exit(3)
+	}
+	if err := st.KV.Put([]byte{}, []byte{1}); err != nil {
+		fmt.Println("put:", err)
+		os.Exit(3)
+	}
+	if err := st.flush(st.KV); err != nil {
+		fmt.Println("flush:", err)
+		os.Exit(3)
+	}
+	ok, err := st.KV.Has([]byte{})
+	fmt.Println("survived", ok, err)
+	os.Exit(0)
+}
+
+func probeEmptyKeyFlush(res *lib.Result) bool {
+	out, err := exec.Command(os.Args[0], "--probe-empty-key-flush").CombinedOutput()
+	switch {
+	case err == nil && strings.Contains(string(out), "survived true"):
+		return false
+	case err != nil && strings.Contains(string(out), "panic:") && strings.Contains(string(out), "pebble/v2"):
+		res.Violate(lib.Violation{Sig: sigEmptyKeyCrash,
+			What: "db/pebblev2: Put(empty key) followed by a flush (or a restart: WAL replay flushes) panics in a Pebble background goroutine and kills the process; db/memory and db/pebble accept the empty key",
+			Replay: map[string]any{"steps": []string{"pebblev2.New(dir)", "Put([]byte{}, []byte{1})", "Impl().(*pebble.DB).Flush()  // or Close() and New(dir) again"},
+				"panic": lastLines(string(out), 14)}})
+		return true
+	}
+	res.Fatalf("probe child for the empty-key flush failed: %v: %s", err, lastLines(string(out), 8))
+	return true
+}
 
 // finish removes the scratch root (only succeeds when it is empty) and writes the result.
 func finish(f lib.Flags, res *lib.Result) {
@@ -673,37 +452,92 @@ func finish(f lib.Flags, res *lib.Result) {
 }
 
 func main() {
+	concOnly := false
+	for i, a := range os.Args {
+		if a == "--conc-only" { // child process of the thorough tier, built with -race
+			concOnly = true
+			os.Args = append(os.Args[:i], os.Args[i+1:]...)
+			break
+		}
+	}
+	for _, a := range os.Args {
+		if a == "--probe-empty-key-flush" { // child process: does Pebble v2 survive a table that holds only the empty key?
+			probeEmptyKeyFlushChild()
+		}
+	}
 	f := lib.ParseFlags()
 	res := lib.NewResult("op sequences of the db.KeyValueStore interface over a 16-key alphabet (empty key, keys extending keys, " +
-		"0xff-terminated / all-0xff prefixes, empty values) run on db/memory, db/pebble, db/pebblev2 and the Lean Mem/Spec models; " +
-		"non-trivial = distinct sequence with >= 8 ops that uses a batch, snapshot or iterator")
+		"0xff-terminated / all-0xff prefixes, empty values) plus a large-data family, run on db/memory, db/pebble, db/pebblev2 " +
+		"(compared with each other) and on the Lean Mem/Peb/Spec models; non-trivial = distinct sequence with >= 8 ops that uses " +
+		"a batch, snapshot or iterator")
 	// lib.NewRNG(s) and lib.NewRNG(s+1) are the same SplitMix stream shifted by one: scramble the seed
 	// first so that different --seed values give unrelated sequences
 	r := lib.NewRNG(lib.NewRNG(f.Seed*0x2545F4914F6CDD1D+0x9E3779B9).Uint64() ^ f.Seed<<32)
+	if concOnly {
+		concurrencyPhase(f, r, res)
+		finish(f, res)
+	}
+	rn := &Runner{res: res}
 	drv, err := lib.StartDriver(f.Driver)
 	if err != nil {
-		res.Note("driver: %v", err)
-		finish(f, res)
+		res.Fatalf("Lean driver did not start: %v (continuing with the backend-against-backend oracle only)", err)
+	} else {
+		defer drv.Close()
+		rn.drv = drv
 	}
-	defer drv.Close()
+	driverDied := func(err error) {
+		rn.once.Do(func() {
+			res.Fatalf("%v (continuing with the backend-against-backend oracle only)", err)
+		})
+		rn.drv = nil
+	}
 
 	// A. dbutils.UpperBound against the model + its defining property on the real function
-	upperBoundPhase(f, r, drv, res)
+	if rn.drv != nil {
+		if err := upperBoundPhase(f, r, rn.drv, res); err != nil {
+			driverDied(err)
+		}
+	}
 
 	// B. which variant of db/memory is this?
-	cfg := probeCfg()
-	res.Note("db/memory variant probed on the real code: %+v", cfg)
-	if a, err := drv.Ask(cfg.Line()); err != nil || a != "ok" {
-		res.Note("driver rejected cfg: %v %q", err, a)
-		finish(f, res)
+	cfg, err := probeCfg()
+	if err != nil {
+		res.Fatalf("probe: %v", err)
 	}
-	rn := &Runner{drv: drv, cfg: cfg, bufDefect: probeBufNil()}
-	res.Note("db.BufferBatch nil-value defect present in this tree: %v", rn.bufDefect)
+	rn.cfg = cfg
+	res.Note("db/memory variant probed on the real code: %+v", cfg)
+	if rn.drv != nil {
+		if a, err := rn.drv.Ask(cfg.Line()); err != nil || a != "ok" {
+			driverDied(fmt.Errorf("Lean driver rejected %q: %v %q", cfg.Line(), err, a))
+		}
+	}
 
+	// C0. Pebble v2 (columnar blocks) kills the whole process, from a background goroutine, when a
+	// table block holds only the empty key. Probed in a child process; while the defect is there,
+	// sequences that write the empty key do not flush / reopen (the harness must survive).
+	emptyKeyCrash := probeEmptyKeyFlush(res)
+
+	f5Family, f5Left := 0, 0
 	runOne := func(ops []Op, label string) {
+		if emptyKeyCrash && usesEmptyKey(ops) {
+			var kept []Op
+			for _, o := range ops {
+				if o.K != "reopen" && o.K != "flush" {
+					kept = append(kept, o)
+				}
+			}
+			if len(kept) != len(ops) {
+				res.Hit("sequences:no-flush-because-empty-key-crashes-pebblev2")
+			}
+			ops = kept
+		}
 		sr, err := rn.Run(ops)
+		if err != nil && rn.drv != nil && strings.Contains(err.Error(), "lean driver") {
+			driverDied(err)
+			sr, err = rn.Run(ops) // again, without the models: the property oracle does not need them
+		}
 		if err != nil {
-			res.Note("run: %v", err)
+			res.Fatalf("family %s: sequence not run: %v", label, err)
 			return
 		}
 		nontrivial := false
@@ -716,6 +550,12 @@ func main() {
 		res.Hit("sequences:" + label)
 		hitOps(res, ops)
 		hitOutputs(res, sr)
+		if strings.HasPrefix(label, "f5-") {
+			f5Family++
+			if sr.F5Left {
+				f5Left++
+			}
+		}
 		rn.account(res, ops, sr)
 		res.Sample(6, map[string]any{"kind": label, "ops": lines(ops[:min(len(ops), 14)]), "memory": sr.Outs["memory"][:min(len(ops), 14)]})
 	}
@@ -729,7 +569,7 @@ func main() {
 			err = json.Unmarshal(b, &wrap)
 		}
 		if err != nil || len(wrap.Replay.Ops) == 0 {
-			res.Note("cannot read replay %s: %v", f.Replay, err)
+			res.Fatalf("cannot read replay %s: %v", f.Replay, err)
 			finish(f, res)
 		}
 		runOne(wrap.Replay.Ops, "replay")
@@ -740,11 +580,27 @@ func main() {
 	for _, ops := range corpus() {
 		runOne(ops, "corpus")
 	}
+	for _, ops := range handleSequences() {
+		runOne(ops, "handles-outside-contract")
+	}
+	for _, ops := range reentrantSequences() {
+		runOne(ops, "re-entrant-callbacks")
+	}
 	for _, ops := range boundsSequences() {
 		runOne(ops, "all-bounds")
 	}
 	for _, ops := range positionSequences(f.Scale(3, 4)) {
 		runOne(ops, "all-position-sequences")
+	}
+	for i, n := 0, f.Scale(60, 1500); i < n; i++ {
+		rr := r.Fork(uint64(1_000_000 + i))
+		rn.disk = i%10 == 0
+		runOne(f5Tail(f5Sequence(rr), rr), "f5-store-write-inside-pending-deleterange")
+	}
+	for i, n := 0, f.Scale(2, 12); i < n; i++ {
+		rr := r.Fork(uint64(2_000_000 + i))
+		rn.disk = i%2 == 0
+		runOne(largeSequence(rr, f.Scale(260, 700)), "large-data+flush+compact+reopen")
 	}
 
 	// D. random sequences; every 10th on a real directory
@@ -753,8 +609,7 @@ func main() {
 		rr := r.Fork(uint64(i))
 		rn.disk = i%10 == 0
 		allowF5 := i%7 == 3
-		wild := i%3 == 1
-		ops := genSequence(rr, rr.Range(8, 70), allowF5, wild)
+		ops := withEnding(genSequence(rr, rr.Range(8, 70), allowF5, true))
 		label := "random"
 		if allowF5 {
 			label = "random+store-changes-under-pending-deleterange"
@@ -762,10 +617,14 @@ func main() {
 		runOne(ops, label)
 	}
 	rn.disk = false
+	if rn.drv != nil && f5Left*3 < f5Family*2 {
+		res.Fatalf("the F5 family is not effective: only %d of %d sequences left f5Free", f5Left, f5Family)
+	}
+	res.HitN("f5-family:left-f5Free", f5Left)
 
-	// E. thorough: one writer, concurrent snapshot / iterator readers
+	// E. concurrency: quick = smoke in process; thorough = child process built with -race
 	if f.Thorough() {
-		concurrencyPhase(f, r, res)
+		concurrencyRaceChild(f, res)
 	} else {
 		concurrencySmoke(r, res)
 	}
@@ -781,7 +640,7 @@ func genKey(r *lib.RNG) []byte {
 	return b
 }
 
-func upperBoundPhase(f lib.Flags, r *lib.RNG, drv *lib.Driver, res *lib.Result) {
+func upperBoundPhase(f lib.Flags, r *lib.RNG, drv *lib.Driver, res *lib.Result) error {
 	n := f.Scale(2000, 50000)
 	for i := 0; i < n; i++ {
 		p, key := genKey(r), genKey(r)
@@ -792,8 +651,7 @@ func upperBoundPhase(f lib.Flags, r *lib.RNG, drv *lib.Driver, res *lib.Result) 
 		}
 		modelS, err := drv.Ask("ub " + hx(p))
 		if err != nil {
-			res.Note("driver: %v", err)
-			break
+			return fmt.Errorf("lean driver died in the UpperBound phase: %w", err)
 		}
 		res.Compared(1)
 		if modelS != implS {
@@ -811,4 +669,5 @@ func upperBoundPhase(f lib.Flags, r *lib.RNG, drv *lib.Driver, res *lib.Result) 
 			res.Hit(fmt.Sprintf("ub-len=%d", len(ub)))
 		}
 	}
+	return nil
 }
